@@ -8,7 +8,7 @@ import re
 from harness import core, xdoc
 
 GEN = ['gen_tables', 'gen_regex', 'gen_config', 'gen_escapes', 'gen_core', 'gen_blockstart']
-THEOREMS = ['C14_block_starts_are_the_source', 'C14_closer_is_the_source', 'C14_inert_delimiters_pass_through', 'C14_inert_delimiters_decidable', 'C14_scanner_finds_nothing', 'C14_inert_hypotheses_hold', 'C14_prose_paragraph_passes_through', 'C14_prose_paragraph_parses', 'C14_prose_hypotheses_hold', 'C14_plain_line_passes_through', 'C14_plain_line_parses', 'C14_plain_hypotheses_hold', 'C14_bounded_prose', 'C14_block_starts_need_their_marker', 'C14_inert_predicate_is_not_vacuous']
+THEOREMS = ['C14_literal_backslash', 'C14_literal_backslash_hypotheses', 'C14_block_starts_are_the_source', 'C14_closer_is_the_source', 'C14_inert_delimiters_pass_through', 'C14_inert_delimiters_decidable', 'C14_scanner_finds_nothing', 'C14_inert_hypotheses_hold', 'C14_prose_paragraph_passes_through', 'C14_prose_paragraph_parses', 'C14_prose_hypotheses_hold', 'C14_plain_line_passes_through', 'C14_plain_line_parses', 'C14_plain_hypotheses_hold', 'C14_bounded_prose', 'C14_block_starts_need_their_marker', 'C14_inert_predicate_is_not_vacuous']
 TRUSTED = ['the inertness predicate (harness/props/c14.py:inert, written from the CommonMark 0.30 / GFM block-start and inline rules, conservative: '
            'when in doubt a paragraph is skipped) and its Coq twin Proofs/Prose.v:inert_text used by the kernel sweep',
            'the parser and HTML renderer models (tied by X-doc and X-html on the same paragraphs)',
